@@ -18,6 +18,15 @@ func init() {
 			c.Get("distall") == "0" && c.Get("distup") == "0" && c.Get("distdown") == "0" && c.Get("distside") == "0" && c.Get("distpush") == "0" {
 			c.SetInt("sizetotal", r.Range(1, 20))
 		}
+		// the reference itself may carry gaps or N (`updown list` warns, but takes it): both routes must read it alike
+		if r.Chance(1, 5) {
+			ref := []byte(c.Get("ref"))
+			for k := 0; k < r.Range(1, 3); k++ {
+				ref[r.Intn(len(ref))] = r.Pick("--N")
+			}
+			c.Set("ref", string(ref))
+			c.Tag("reference-with-gaps")
+		}
 		// several queries matter here
 		n := relOf(c, "fourway", "eq4")
 		return n
